@@ -66,3 +66,12 @@ pub open spec fn bkey(b: IndexBlob) -> (BlobType, u64) { (b.tpe, b.id._opaque) }
 pub open spec fn outstanding(m: Map<(BlobType, u64), u8>, k: (BlobType, u64)) -> int { if m.dom().contains(k) { m[k] as int } else { 0 } }
 // u8::saturating_add
 pub fn vsat_add(c: u8, n: u8) -> (r: u8) ensures r == (if c as int + n as int > 255 { 255u8 } else { (c + n) as u8 }), { if c > 255 - n { 255 } else { c + n } }
+
+// ---- PrunePlan::new: duplicate packs in the index files ----
+pub struct VPackIdSet { pub s: Ghost<Set<PackId>> }
+impl VPackIdSet {
+    #[verifier::external_body]
+    pub fn insert(&mut self, id: PackId) -> (r: bool) ensures r == !old(self).s@.contains(id), final(self).s@ == old(self).s@.insert(id), { unimplemented!() }
+    #[verifier::external_body]
+    pub fn contains(&self, id: &PackId) -> (r: bool) ensures r == self.s@.contains(*id), { unimplemented!() }
+}
